@@ -47,6 +47,7 @@ def check(run, db, tier):
     run.rule('C04.pad', 'pad2d places the input origin n//2 on the output origin N//2 for every parity class (both code paths); after-pad completes the shape')
     run.rule('C04.crop', 'crop_center takes [n//2 - o//2, +o) on each axis; crop offset == pad offset for the swapped pair')
     run.rule('C04.centre', 'every centre/reference/DC index equals s//2 of the axis it indexes, for odd and even s')
+    run.rule('C04.slices', 'the x/y slices of a data set are row center_y / column center_x (argmin|y|, argmin|x|), one- and two-sided')
     run.rule('C04.who', 'coordinate producers and pad/crop wrappers delegate to fftrange / pad2d / crop_center')
 
     # ---- fftrange --------------------------------------------------------
@@ -263,6 +264,50 @@ def check(run, db, tier):
     ok = any(c.endswith('fftshift') for c in calls) and not any(c.endswith('ifftshift') for c in calls) and any(c.endswith('fftfreq') for c in calls)
     run.check(ok, 'C04.who', f.qual, 'fftshift(fftfreq)', 'shifted frequency axis is fftshift(fftfreq(n, dx)) (zero at n//2)',
               'forward_ft_unit does not build its shifted axis as fftshift(fftfreq(...)): calls %s' % calls, f.loc())
+
+    # ---- Slices: the x slice is row centre_y, the y slice is column centre_x (both branches)
+    sci = db.cls('prysm._richdata.Slices')
+    it, dom = mk(db, {})
+    init = db.method(sci, '__init__')
+    o = Obj(sci)
+    it._reset_run([])
+    it.call_funcinfo(init, [dom.sym('data'), dom.sym('xv'), dom.sym('yv')], {'twosided': Const(True)}, o, None)
+    cy, cx = dom.rat(o.attrs.get('center_y')), dom.rat(o.attrs.get('center_x'))
+    okc = cy is not None and cx is not None and 'yv' in cy.key() and 'xv' not in cy.key() and 'xv' in cx.key() and 'yv' not in cx.key() and 'argmin' in cy.key()
+    run.check(okc, 'C04.slices', init.qual, 'centre indices', 'center_y = argmin|y|, center_x = argmin|x|',
+              'slice centres are (center_y=%s, center_x=%s); expected argmin|y| and argmin|x|' % (o.attrs.get('center_y'), o.attrs.get('center_x')), init.loc())
+    for which, rowcol in (('x', 0), ('y', 1)):
+        fi = db.func('prysm._richdata.Slices.' + which)
+        for two in (True, False):
+            def mkself():
+                so = Obj(sci)
+                so.attrs.update({'_source': dom.array('src', 'r', 'c'), '_x': dom.array('x', 'c'), '_y': dom.array('y', 'r'),
+                                 'center_y': dom.integer('cy'), 'center_x': dom.integer('cx'), 'twosided': Const(two)})
+                return so
+            res = [p for p in it.run(fi, self_obj=mkself) if p.outcome == 'return']
+            if len(res) != 1 or not (isinstance(res[0].value, Tup) and len(res[0].value.items) == 2):
+                raise AnalysisError('Slices.%s: expected one (coords, values) return' % which)
+            coords, vals = res[0].value.items
+            ok = isinstance(vals, Shaped) and vals.origin is not None and vals.origin[0] == 'slice' and vals.origin[1].label == 'src'
+            detail = repr(vals)
+            if ok:
+                idx = vals.origin[2]
+                items = idx.items if isinstance(idx, Tup) else [idx]
+                fixed, along = (items[0], items[1]) if which == 'x' else (items[1], items[0])
+                wantfixed = dom.integer('cy' if which == 'x' else 'cx')
+                wantstart = dom.integer('cx' if which == 'x' else 'cy')
+                ok = eq(dom, fixed, wantfixed) and isinstance(along, Slice)
+                if ok and not two:
+                    ok = eq(dom, along.lo, wantstart) and isinstance(along.hi, Const) and along.hi.v is None
+                    c_ok = isinstance(coords, Shaped) and coords.origin is not None and coords.origin[0] == 'slice' and coords.origin[1].label == which \
+                        and isinstance(coords.origin[2], Slice) and eq(dom, coords.origin[2].lo, wantstart)
+                    ok = ok and c_ok
+                elif ok:
+                    ok = isinstance(along.lo, Const) and along.lo.v is None and isinstance(coords, Shaped) and coords.label == which
+                detail = 'index %r, coordinates %r' % (idx, coords)
+            run.check(ok, 'C04.slices', fi.qual, '%s slice twosided=%s' % (which, two),
+                      'the %s slice is taken through the origin sample (%s centre fixed%s)' % (which, 'row' if which == 'x' else 'column', '' if two else ', starting at the other centre'),
+                      'Slices.%s (twosided=%s) does not pass through the origin sample: %s' % (which, two, detail), fi.loc())
 
     # ---- who-may-place-a-centre -----------------------------------------
     def calls_in(qual):
